@@ -24,6 +24,7 @@ DT = EX + "data_types.py"
 PAYLOAD_FIELDS = ("data", "blob")
 SIZE_FIELD = "size_bytes"
 NUMBER_FIELDS = ("image_index", "image_number", "index")
+STORED_NUMBER_FIELDS = set()      # number fields of unit / page classes (filled by unit_number_sites): a copy of one is covered by its own site
 SUR_LO, SUR_HI = 0xD800, 0xDFFF
 
 
@@ -596,7 +597,7 @@ def _number_obligation(oid, rel, mod, ix, call, fnode, cls, nf, e, default, give
         return res(False, f"{cls}(...) built without {nf}: the image number stays at its default {d!r} (not a positive number)")
     if isinstance(e, ast.Constant) and isinstance(e.value, int):
         return res(e.value >= 1, f"{nf}={e.value}")
-    if isinstance(e, ast.Attribute) and e.attr in NUMBER_FIELDS:
+    if isinstance(e, ast.Attribute) and (e.attr in NUMBER_FIELDS or e.attr in STORED_NUMBER_FIELDS):
         return res(True, f"{nf} copied from another image object (its invariant)")
     if isinstance(e, ast.Name) and isinstance(fnode, (ast.FunctionDef, ast.AsyncFunctionDef)):
         ld = enclosing_loop_def(ix, call, e.id, fnode)
@@ -1907,3 +1908,104 @@ def metadata_freshness_sites(repo, tier):
                 obls.append(o)
     obls.append(ground_obligation("C04/package/call-pre#populate_from_path-sites-scanned", n_sites >= 15, f"{n_sites} populate_from_path call sites", "package"))
     return {"obligations": obls, "functions": []}
+
+
+# ------------------------------------------------------------ unit numbers --
+def unit_number_fields(dt):
+    """{class: field} for every class whose stored number is reported as unit_number: the unit classes (field read by
+    get_metadata(): `unit_number=self.<field>`) and the page-like content classes those units copy their number from
+    (`slide.slide_number`): every non-image dataclass with an `int` field of that name."""
+    out = {}
+    img = set(image_classes(dt))
+    for n, c in dt.classes.items():
+        if "UnitInterface" in [ast.unparse(b).split(".")[-1] for b in c.bases]:
+            gm = dt.functions.get(f"{n}.get_metadata")
+            for k in ast.walk(gm) if gm is not None else []:
+                if isinstance(k, ast.keyword) and k.arg == "unit_number" and isinstance(k.value, ast.Attribute) and isinstance(k.value.value, ast.Name) \
+                        and k.value.value.id == "self":
+                    out[n] = k.value.attr
+    copied = set()
+    for fn in dt.functions.values():
+        for call in ast.walk(fn):
+            if isinstance(call, ast.Call) and dotted(call.func).split(".")[-1] in out:
+                for k in call.keywords:
+                    if k.arg == out[dotted(call.func).split(".")[-1]] and isinstance(k.value, ast.Attribute):
+                        copied.add(k.value.attr)
+    for n in dt.classes:
+        if n in img or n in out:
+            continue
+        ann = _field_annotations(dt, n)
+        for f in copied:
+            if ann.get(f) == "int":
+                out[n] = f
+    return out
+
+
+def unit_number_sites(repo, tier):
+    """unit numbers >= 1: at every constructor call of a unit class (and of the page-like classes units copy their number from)
+    the number argument is >= 1 -- constant, enumerate(start >= 1), a counter that starts >= 1 or is incremented before the
+    constructor on every path (also through `nonlocal`), or a copy of a stored number."""
+    dt = loader.module(DT, repo)
+    carriers = unit_number_fields(dt)
+    STORED_NUMBER_FIELDS.update(carriers.values())
+    obls = []
+    n_sites = 0
+    for rel, mod in modules(repo).items():
+        ix = Index(mod)
+        per_fn = {}
+        for n in ast.walk(mod.tree):
+            if isinstance(n, ast.Call) and dotted(n.func).split(".")[-1] in carriers:
+                q, fnode = ix.enclosing(n)
+                per_fn.setdefault((q, dotted(n.func).split(".")[-1]), []).append((n, fnode))
+        for (q, cls), sites in sorted(per_fn.items()):
+            fields = dataclass_fields(dt, cls)
+            names = [f for f, _d in fields]
+            nf = carriers[cls]
+            for k, (call, fnode) in enumerate(sorted(sites, key=lambda x: (x[0].lineno, x[0].col_offset))):
+                n_sites += 1
+                oid = f"C04/{short(rel)}::{q}/call-pre#{cls}-{nf}-positive@{k}"
+                try:
+                    if any(k_.arg is None for k_ in call.keywords):
+                        obls.append(ground_obligation(oid, False, f"{rel}:{call.lineno} **kwargs constructor call", rel, definite=False))
+                        continue
+                    kw = call_kwargs(call, names)
+                    e = kw.get(nf)
+                    o = _nonlocal_counter(oid, rel, ix, call, fnode, nf, e) if e is not None else None
+                    if o is None:
+                        o = _number_obligation(oid, rel, mod, ix, call, fnode, cls, nf, e, dict(fields).get(nf), nf in kw)
+                    o["replay_hint"] = {"kind": "unit-number", "class": cls, "file": rel}
+                    obls.append(o)
+                except Exception as ex:  # noqa -- an unexpected shape is never an engine error
+                    obls.append(ground_obligation(oid, False, f"{rel}:{call.lineno} analysis gave up: {type(ex).__name__}", rel, definite=False))
+    obls.append(ground_obligation("C04/package/call-pre#unit-constructor-sites-scanned", n_sites >= 15, f"{n_sites} unit / page constructor call sites", "package"))
+    return {"obligations": obls, "functions": []}
+
+
+def _nonlocal_counter(oid, rel, ix, call, fnode, nf, e):
+    """A counter shared with the enclosing function through `nonlocal`: initialised >= 1 there, only incremented anywhere."""
+    if not (isinstance(e, ast.Name) and isinstance(fnode, (ast.FunctionDef, ast.AsyncFunctionDef))):
+        return None
+    if not any(isinstance(n, ast.Nonlocal) and e.id in n.names for n in own_walk(fnode)):
+        return None
+    _q, outer = ix.enclosing(fnode)
+    if not isinstance(outer, (ast.FunctionDef, ast.AsyncFunctionDef)):
+        return None
+    inits = []
+    for scope in (outer, fnode):
+        for d in single_defs(scope, e.id):
+            if d[0] == "assign" and isinstance(d[1], ast.Constant) and isinstance(d[1].value, int):
+                inits.append(d[1].value)
+            elif d[0] == "aug" and isinstance(d[1], ast.Add) and isinstance(d[2], ast.Constant) and isinstance(d[2].value, int) and d[2].value >= 0:
+                continue
+            elif d[0] == "assign" and _is_self_increment(d[1], e.id) is not None:
+                continue
+            else:
+                return None
+    for q2, f2 in ix.mod.functions.items():        # sibling closures sharing the counter
+        if f2 is not fnode and f2 is not outer and ix.enclosing(f2)[1] is outer and any(isinstance(n, ast.Nonlocal) and e.id in n.names for n in own_walk(f2)):
+            for d in single_defs(f2, e.id):
+                if not (d[0] == "aug" and isinstance(d[1], ast.Add) and isinstance(d[2], ast.Constant) and isinstance(d[2].value, int) and d[2].value >= 0):
+                    return None
+    if inits and min(inits) >= 1:
+        return ground_obligation(oid, True, f"{rel}:{call.lineno} {nf}={e.id}: nonlocal counter initialised at {min(inits)} and only incremented", rel)
+    return None
